@@ -18,10 +18,6 @@ import "bytes"
 const (
 	ledgerKeep = 1 << 20 // bytes kept (the oldest are dropped)
 	ledgerTrim = 1 << 16
-	// bulkMin: a single request of this size or more is a bulk fetch (no scheme
-	// tink implements needs that much in one request: the largest are an RSA-4096
-	// prime candidate, 256 bytes, and an RSA-4096/SHA-256 maximal PSS salt, 478).
-	bulkMin = 1024
 )
 
 type ledgerT struct {
@@ -44,8 +40,9 @@ var ledger ledgerT
 // its call, i.e. the library under test buffers randomness.
 var pooledSeen bool
 
-// bulkSeen: some call of this process made a single request of bulkMin bytes or more.
-var bulkSeen bool
+// leftoverSeen: some call of this process asked the seam for more bytes than the field
+// it put them into.
+var leftoverSeen bool
 
 // runsStarted counts the runs of this process.
 var runsStarted uint64
